@@ -33,7 +33,7 @@ func implPass(raw json.RawMessage) (any, error) {
 }
 
 var passOpts = world.GenOpts{CapOverride: 0.3, MultiTaint: 0.3, InterPod: 0.15, NodeAffinity: 0.45, Existing: 0.7, Limits: 0.2,
-	Volumes: 0.3, Namespaces: 0.1, LabelInterplay: 0.2, DefaultSpread: 0.05, ListFaults: 0.03, GetFaults: 0.3, ZonelessUnmanaged: 0.5, DaemonLimitsOnly: 0.3}
+	Volumes: 0.3, Namespaces: 0.1, LabelInterplay: 0.2, DefaultSpread: 0.05, ListFaults: 0.03, GetFaults: 0.3, ZoneHoles: 0.02, TaintValues: 0.02, ZonelessUnmanaged: 0.5, DaemonLimitsOnly: 0.3}
 
 func errClass(err error) string { return err.Error() }
 
